@@ -387,10 +387,10 @@ class ManifestFile:
             elif state == ManifestState.SIGNED_PREAMBLE:
                 if verify_openpgp:
                     openpgp_data += line
-                # skip header lines up to the empty line
-                if line.strip():
-                    continue
-                state = ManifestState.SIGNED_DATA
+                # skip header lines up to the empty line (they are
+                # skipped below, after checking for misplaced armor)
+                if not line.strip():
+                    state = ManifestState.SIGNED_DATA
             elif state == ManifestState.SIGNED_DATA:
                 if verify_openpgp:
                     openpgp_data += line
